@@ -81,6 +81,19 @@ func (r *Report) sample(s interface{}) {
 	r.mu.Unlock()
 }
 
+// nviol: violations reported so far, repeated shapes included.
+func (r *Report) nviol() int {
+	r.mu.Lock()
+	defer r.mu.Unlock()
+	n := 0
+	for k, v := range r.Dist {
+		if strings.HasPrefix(k, "violation:") {
+			n += v
+		}
+	}
+	return n
+}
+
 func (r *Report) violate(v Violation) {
 	r.mu.Lock()
 	// keep one violation per shape (the first, which generators order smallest-first) plus a count
